@@ -97,6 +97,7 @@ def run_rel(ctx, tag, groups, harness_env=None, extra_case=None):
         if not r["ok"] or not r["eq"]:
             r["detail"] = {"impl": res["ok"]["rows"][:20], "model_eng": [[str(c) for c in row] for row in eng_rows[:20]],
                            "sql": [[str(c) for c in row] for row in sql_rows[:20]]}
+            r["tables"] = [{k: t.get(k) for k in ("name", "types", "rows", "batch_sizes", "parquet")} for t in g["tables"]]
         results.append(r)
     return results
 
@@ -113,7 +114,8 @@ def judge_rel(ctx, results, max_error_rate=0.2):
     def classify(c):
         return c["classes"][0] if c["classes"] else None
     # a failing case is attributed to a class only if every class it is in is listed
-    cases = [{"sql": r["sql"], "kind": r["kind"], "classes": r["classes"], "detail": r.get("detail")} for r in ran]
+    cases = [{"sql": r["sql"], "kind": r["kind"], "classes": r["classes"], "detail": r.get("detail"), "tables": r.get("tables")}
+             for r in ran]
     def cls(c):
         if not c["classes"]:
             return None
